@@ -27,9 +27,18 @@ def log_pdf_to_affiliation(
     else:
         _ = np.broadcast_arrays(weight, log_pdf, source_activity_mask)
 
+    if source_activity_mask is not None:
+        assert source_activity_mask.dtype == bool, source_activity_mask.dtype  # noqa
+        # Inactive sources must not take part in the maximum below: if an
+        # inactive source dominates by more than the exponent range of the
+        # dtype (~87 for float32), all active sources would underflow.
+        log_pdf = np.where(source_activity_mask, log_pdf, -np.inf)
+
     # The value of affiliation max may exceed float64 range.
     # Scaling (add in log domain) does not change the final affiliation.
-    affiliation = log_pdf - np.amax(log_pdf, axis=-2, keepdims=True)
+    maximum = np.amax(log_pdf, axis=-2, keepdims=True)
+    maximum = np.where(np.isfinite(maximum), maximum, 0)  # all inactive
+    affiliation = log_pdf - maximum
 
     np.exp(affiliation, out=affiliation)
 
